@@ -249,6 +249,7 @@ func loadKnown() []knownFinding {
 func matchKnown(known []knownFinding, prop string, f *failure) *knownFinding {
 	var out struct {
 		Class      string                  `json:"class"`
+		Strategy   string                  `json:"Strategy"`
 		Races      []struct{ A, B string } `json:"races"`
 		HistFuncs  []string                `json:"history_funcs"`
 		Funcs      []string                `json:"rare_funcs"`
@@ -290,6 +291,46 @@ func matchKnown(known []knownFinding, prop string, f *failure) *knownFinding {
 			if v, has := k.Key["knob_nondefault"]; has {
 				name, _ := v.(string)
 				if sc.Knobs == nil || sc.Knobs[name] == nil {
+					ok = false
+				}
+			}
+			if v, has := k.Key["strategy_in"]; has {
+				found := false
+				if l, isList := v.([]any); isList {
+					for _, x := range l {
+						if xs, _ := x.(string); xs == out.Strategy {
+							found = true
+						}
+					}
+				}
+				if !found {
+					ok = false
+				}
+			}
+			if v, has := k.Key["history_func_any"]; has {
+				found := false
+				if l, isList := v.([]any); isList {
+					for _, x := range l {
+						xs, _ := x.(string)
+						for _, fn := range out.HistFuncs {
+							if fn == xs {
+								found = true
+							}
+						}
+					}
+				}
+				if !found {
+					ok = false
+				}
+			}
+			// an entry whose key is empty or has a condition this driver does not know matches nothing
+			if len(k.Key) == 0 {
+				ok = false
+			}
+			for name := range k.Key {
+				switch name {
+				case "knob_nondefault", "history_func", "strategy_in", "history_func_any":
+				default:
 					ok = false
 				}
 			}
